@@ -23,7 +23,25 @@ fn pick(id: &str) -> Option<Box<dyn Check>> {
     }
 }
 
+/// A logger that formats every record and throws it away.  With the maximum level at Trace the
+/// argument expressions of every debug!/trace! statement in the library are evaluated in every
+/// simulated run, exactly as they are under `packing -vv` (with no logger installed the `log`
+/// macros skip them altogether and whatever they do would never be seen).
+struct DiscardLogger;
+impl log::Log for DiscardLogger {
+    fn enabled(&self, _: &log::Metadata) -> bool {
+        true
+    }
+    fn log(&self, r: &log::Record) {
+        let _ = format!("{}", r.args());
+    }
+    fn flush(&self) {}
+}
+static LOGGER: DiscardLogger = DiscardLogger;
+
 fn main() {
+    let _ = log::set_logger(&LOGGER);
+    log::set_max_level(if std::env::var("VERIF_LOG_OFF").is_ok() { log::LevelFilter::Off } else { log::LevelFilter::Trace });
     let args: Vec<String> = std::env::args().skip(1).collect();
     let (id, opts) = match parse_options(&args) {
         Ok(x) => x,
